@@ -330,6 +330,10 @@ def validate(chk, traces, scheds_by_id, tag, asis=False):
 
 def pc_signature(res):
     exp = res["expect"]
+    if res["result"] == "panic" and res.get("panic_in"):
+        return "C15/panic:" + res["panic_in"]        # event-listener/<event type>
+    if res.get("contract"):
+        return "C15/event:" + res["contract"][0]     # nil-error/<event type>
     if res["result"] == "panic":
         step = exp.get("failstep") or "none"
         if res["broker"] in ("nonstring_type", "nonstring_sdp"):
@@ -372,7 +376,7 @@ def judge_peerconnect(chk, result):
         if x["result"] == "harness":
             raise vlib.Inconclusive("PeerConnect harness problem in case %s/%s/%s: %s" % (x["ice"], x["broker"], x["dc"], x.get("err")))
         exp = x["expect"]
-        if x["result"] == exp["result"] and x["events"] == exp["events"]:
+        if x["result"] == exp["result"] and x["events"] == exp["events"] and not x.get("contract"):
             continue
         bad += 1
         if len(chk.violations) >= MAX_REPORT and not any(k.get("key") == pc_signature(x) for k in chk.known):
@@ -398,7 +402,16 @@ def connectloop(chk, result):
     try:
         d = vlib.scratch("loop")
         outp = os.path.join(d, "loop.ndjson")
-        go_test("^TestVerifC15ConnectLoop$", {"VERIF_C15_LOOP_OUT": outp}, 240)
+        r = vlib.go_test_inpkg("client/lib", HFILES, "^TestVerifC15ConnectLoop$", env={"VERIF_C15_LOOP_OUT": outp},
+                               linkflag=True, timeout=300)
+        m = re.search(r"^panic: .*$", r.out, re.M)
+        if r.rc != 0 and not r.timed_out and m and "client/lib.connectLoop" in r.out:
+            # the listener has no recover, exactly like the client binary's: a panic on connectLoop's goroutine
+            # ends the process - here the test binary.  That IS the observation.
+            result["crash"] = {"panic": m.group(0), "stack": r.out[m.start():m.start() + 3500]}
+            return
+        if r.timed_out or r.rc != 0 or "\nok" not in "\n" + r.out:
+            raise vlib.Inconclusive("go test TestVerifC15ConnectLoop failed (rc=%s timeout=%s):\n%s" % (r.rc, r.timed_out, r.out[-3000:]))
         result["results"] = vlib.read_ndjson(outp)
     except Exception as e:  # noqa: BLE001
         result["error"] = e
@@ -407,9 +420,18 @@ def connectloop(chk, result):
 def judge_connectloop(chk, result):
     if "error" in result:
         raise result["error"]
+    if "crash" in result:
+        c = result["crash"]
+        m = re.search(r"common/event\.(EventOn\w+)\.String", c["stack"])
+        sig = "C15/panic:event-listener/" + m.group(1) if m else "C15/panic:client-process/connectLoop"
+        chk.violation(sig, "real Transport.Dial/connectLoop with a listener that prints every event like the client binary's ptEventLogger: "
+                      "the process died on connectLoop's goroutine instead of reporting the failed attempt and retrying: %s" % c["panic"],
+                      {"kind": "loop", "crash": c})
+        chk.cov["evaluations"] += 1
+        return
     res = result["results"]
     for x in res:
-        if x.get("note", "").startswith(("Dial", "no rendezvous")):
+        if x.get("note", "").startswith(("Dial", "no rendezvous", "harness")):
             raise vlib.Inconclusive("connectLoop scenario %s: %s" % (x["scenario"], x["note"]))
         rp = {"kind": "loop", "got": x}
         if not x["close_returned"]:
@@ -423,6 +445,12 @@ def judge_connectloop(chk, result):
                           "scenario %s: the second SnowflakeConn.Close panicked: %s" % (x["scenario"], x["second_close"]), rp)
         elif x["second_close"] != "ok":
             chk.violation("C15/hang:SnowflakeConn.Close/second", "scenario %s: the second Close did not return" % x["scenario"], rp)
+        if x["scenario"].startswith("dc-never-opens") and not (x["retried"] and "failed" in x["events"]):
+            chk.violation("C15/no-report-or-retry-after-dc-timeout",
+                          "scenario %s: after the data channel of the first peer never opened, retried=%s events=%s "
+                          "(want a 'failed' event and a new rendezvous attempt)" % (x["scenario"], x["retried"], x["events"]), rp)
+        if x.get("contract"):
+            chk.violation("C15/event:" + x["contract"][0], "scenario %s: event contract: %s" % (x["scenario"], x["contract"]), rp)
         if x["calls_after_wait"] != x["calls_at_close"]:
             chk.violation("C15/catch-after-close:" + x["scenario"].split("/")[0],
                           "scenario %s: %d rendezvous attempt(s) started after SnowflakeConn.Close had returned (watched %d ms > ReconnectTimeout)" % (
@@ -480,6 +508,8 @@ def run(chk, args):
         "peers in the Peers replay are the hook-free fake *WebRTCPeer{closed: ...} the repository's own tests use; real pion peers only in PeerConnect",
         "quiescence = every operation goroutine finished or parked (chan send/receive, select, sync.Mutex.Lock) in two consecutive goroutine dumps",
         "connectLoop/Close is observed in real time for ReconnectTimeout + 2 s after Close returned",
+        "events are consumed by a mirror of client/snowflake.go ptEventLogger (String() on every event, synchronously, no recover); "
+        "pt.Log's own output path is not exercised",
     ]
 
 
@@ -505,6 +535,10 @@ def model_check(chk, q):
     chk.add_tlc(r)
     if r.error != "invariant:NoPanic":
         chk.fail("vacuity: PeerConnect as-is (D10) configuration does not violate NoPanic: %s" % r.error)
+    r = vlib.tlc(SPECDIR, "PeerConnect", "PC_nilevent.cfg", workers=1, timeout=300, keep_prints=False)
+    chk.add_tlc(r)
+    if r.error != "invariant:NoPanic":
+        chk.fail("vacuity: PeerConnect with an unprintable failure event does not violate NoPanic: %s" % r.error)
 
 
 def tlc_expect_error(chk, module, cfg, timeout=600):
